@@ -168,5 +168,36 @@ pub fn scenarios(tier: Tier) -> Vec<Scenario> {
             }
         }
     }
+    // a subscriber of store A forwards A's actions into store B from A's reducer context while
+    // B's own producer keeps B's small queue busy
+    let mut add_fwd = |k: u32, bound: u32| {
+        let mut a = StoreSpec::new(1, 2, Pol::Block);
+        a.name = Some("same");
+        let mut b = StoreSpec::new(1, 1, Pol::Block);
+        b.name = Some("same");
+        let mut prog = Program::new(a);
+        prog.stores.push(b);
+        prog = prog.thread_on("pa", 0, (0..k).map(|q| Op::Dispatch(Act::new(100 + q))).collect());
+        prog = prog.thread_on("pb", 1, (0..k).map(|q| Op::Dispatch(Act::new(200 + q))).collect());
+        prog = prog.main(vec![
+            Op::AddSub { id: 1, gated: false, reads: false },
+            Op::On(1, Box::new(Op::AddSub { id: 2, gated: false, reads: false })),
+            Op::AddForwardSub { id: 4, to: 1, off: 150 },
+            Op::SpawnAll,
+            Op::JoinAll,
+            Op::Stop,
+            Op::GetState(1),
+            Op::GetMetrics(2),
+            Op::On(1, Box::new(Op::Stop)),
+            Op::On(1, Box::new(Op::GetState(101))),
+            Op::On(1, Box::new(Op::GetMetrics(102))),
+        ]);
+        v.push(scn(format!("C19/forward/k{}", k), prog, bound, opts_elide(), check));
+    };
+    add_fwd(1, 2);
+    if tier == Tier::Thorough {
+        add_fwd(2, 2);
+        add_fwd(1, 3);
+    }
     v
 }
